@@ -323,3 +323,8 @@ Lemma hashmod_wrap_witness :
   exists len h n1 n2, n1 < n2 < len /\ (0 <= h < 2 ^ 64)%Z /\
     simple_idx_wrap len h n1 = simple_idx_wrap len h n2.
 Proof. exists 3, (2 ^ 64 - 1)%Z, 0, 1. split; [lia|]. split; [vm_compute; split; congruence|]. vm_compute. reflexivity. Qed.
+
+(* tie T: the predicate of sort.Search in ketamaHashring.GetN, as read from the
+   source, is the one the model's search_ge uses *)
+Lemma search_pred_tie h v : ketama_search_pred h v = (v <=? h)%Z.
+Proof. unfold ketama_search_pred. apply Z.geb_leb. Qed.
